@@ -318,7 +318,7 @@ func checkDesign(b *rt.Built) []string {
 	// (3) the operations the server really mounts
 	obs, err := b.H.Do(&harness.Case{Op: "mounts"})
 	if err != nil {
-		return append(msgs, "INCONCLUSIVE harness: "+err.Error())
+		return append(msgs, "INCONCLUSIVE: harness: "+err.Error())
 	}
 	mounted := map[op]bool{}
 	for _, h := range obs.Handled {
